@@ -117,10 +117,10 @@ def cmd_run(args):
         try:
             if parser_type == 'amex':
                 _warn_deprecated_parser(source.get('name', 'AMEX'), 'amex', source['file'])
-                txns = parse_amex(filepath, rules)
+                txns = parse_amex(filepath, rules, transforms=transforms, data_sources=supplemental_data)
             elif parser_type == 'boa':
                 _warn_deprecated_parser(source.get('name', 'BOA'), 'boa', source['file'])
-                txns = parse_boa(filepath, rules)
+                txns = parse_boa(filepath, rules, transforms=transforms, data_sources=supplemental_data)
             elif parser_type == 'generic' and format_spec:
                 txns = parse_generic_csv(filepath, format_spec, rules,
                                          source_name=source.get('name', 'CSV'),
